@@ -97,8 +97,9 @@ pub fn generate(g: &mut Gen, thorough: bool) {
     {
         let pool = [0.0, -0.0, 1.5, -2.25, f64::NAN, f64::INFINITY, 1e-310, 7.0, 8.0, 9.0];
         let pickv = |g: &mut Gen| if g.rng.chance(1, 3) { f64::from_bits(g.rng.next()) } else { *g.rng.pick(&pool) };
-        for dim in ["2", "3", "4", "p"] {
-            let n = match dim { "2" | "p" => 2, "3" => 3, _ => 4 };
+        // (1, 5, 6: tuple types of a user, with the trait's defaults for everything but the three required methods)
+        for dim in ["2", "3", "4", "p", "1", "5", "6"] {
+            let n = match dim { "2" | "p" => 2, "3" => 3, "1" => 1, "5" => 5, "6" => 6, _ => 4 };
             for _ in 0..(if thorough { 40 } else { 6 }) {
                 let vals: Vec<String> = (0..n).map(|_| fbits(pickv(g))).collect();
                 let vals = vals.join(",");
@@ -106,7 +107,12 @@ pub fn generate(g: &mut Gen, thorough: bool) {
                 for op in ["x", "y", "z", "t"] {
                     ops.push((op.to_string(), "-".to_string()));
                 }
-                for i in [0.0, 1.0, 2.0, 3.0, 4.0, 9.0, 1e19] {
+                ops.push(("scale".to_string(), fbits(pickv(g))));
+                {
+                    let a: Vec<String> = (0..n).map(|_| fbits(pickv(g))).collect();
+                    ops.push(("dot".to_string(), a.join(",")));
+                }
+                for i in [0.0, 1.0, 2.0, 3.0, 4.0, 5.0, 6.0, 9.0, 1e19] {
                     ops.push(("nth".to_string(), fbits(i)));
                     ops.push(("set_nth".to_string(), format!("{},{}", fbits(i), fbits(pickv(g)))));
                 }
@@ -123,6 +129,17 @@ pub fn generate(g: &mut Gen, thorough: bool) {
                     g.push(format!("TUP\t{dim}\t{vals}\t{op}\t{a}"), &format!("tuple-{op}"), true);
                 }
             }
+        }
+    }
+    // tuple types of a user, of one to eight elements: the element-wise definitions
+    for n in [1usize, 2, 3, 4, 5, 6, 8] {
+        for _ in 0..(if thorough { 60 } else { 8 }) {
+            let special = [0.0, -0.0, f64::NAN, f64::INFINITY, 1e-300, 100.0, 2020.0, -7.5];
+            let mut pick = |g: &mut Gen| if g.rng.chance(1, 6) { *g.rng.pick(&special) } else { g.rng.uniform(-1000.0, 1000.0) };
+            let v: Vec<String> = (0..n).map(|_| crate::wire::fbits(pick(g))).collect();
+            let w: Vec<String> = (0..n).map(|_| crate::wire::fbits(pick(g))).collect();
+            let f = pick(g);
+            g.push(format!("S_C19T\t{}\t{}\t{}", v.join(","), w.join(","), crate::wire::fbits(f)), "oracle-user-tuples", true);
         }
     }
     // unit conversions of whole tuples: angular elements only
